@@ -424,6 +424,15 @@ def replay_case(case):
     if k == "tasks":
         ops = [tuple(tuple(x) if isinstance(x, list) else x for x in o) for o in case["ops"]]
         return mach.run_task_history(ops)[1]
+    if k == "service-machine":
+        ops = [tuple(o) for o in case["ops"]]
+        return mach.run_service_history(ops)[2]
+    if k == "service":
+        from tools.vlib import c11_system as S
+        res = S.run_service_job(dict(case["job"]))
+        if "crash" in res:
+            return [("crash", res["crash"])]
+        return res["bad"]
     if k == "system":
         from tools.vlib import c11_system as S
         res = S.run_job(dict(case["job"]))
@@ -480,12 +489,16 @@ def run(ctx):
     pool = multiprocessing.Pool(12)      # forked before any thread is started
     lc, lm = stage_listeners(ctx)
     tc, tmeta = stage_tasks(ctx)
+    vc, vmeta = stage_service_machine(ctx)
     t1 = _time.time()
     # the two machine models are evaluated inside Coq while the whole-system runs are under way
     th = [threading.Thread(target=eval_listeners, args=(ctx, lc, lm)), threading.Thread(target=eval_tasks, args=(ctx, tc, tmeta))]
+    if rows is not None:      # (the service model is evaluated against the generated step list)
+        th.append(threading.Thread(target=eval_service, args=(ctx, vc, vmeta)))
     for t in th:
         t.start()
     try:
+        stage_service_system(ctx, pool)
         sc, sm = stage_system(ctx, rows, pool)
     finally:
         pool.terminate()
@@ -503,9 +516,12 @@ def run(ctx):
         "shutdown, complete, external cancel, loop iteration} plus random histories; (c) every shipped overlay class with default "
         "settings, scripted runs (discovery walk; DHT ping/store/find/store-peer/connect-peer; circuit build, transfer, ping, "
         "destroy; attestation request/verify; identity advertise), unload at every step and at random virtual times on 1-3 roles, "
-        "late datagrams (captured + all 256 ids + cells + tunnel side + open transports), API probes, 2 h of virtual time. "
+        "late datagrams (captured + all 256 ids + cells + tunnel side + open transports), API probes, 2 h of virtual time; "
+        "(d) real ipv8_service.IPv8: all add_strategy/unload_overlay/on_tick histories to depth %d with stub overlays, and three full "
+        "IPv8 instances (default configuration minus bootstrappers, ticker running) with unload_overlay / stop at several virtual "
+        "times followed by 90 s of observation. "
         "non-trivial = a listener was called / a task event occurred / the overlay handled or sent a datagram before unload"
-        % ((4, 3, 3) if ctx.quick else (6, 5, 5)))
+        % ((4, 3, 3, 4) if ctx.quick else (6, 5, 5, 6)))
     ctx.coverage["exhaustive"] = False
 
 
@@ -532,3 +548,122 @@ def replay(path):
         print("no longer checks:", b["what"])
         rc = 1
     return rc
+
+
+# ======================================================================================= (d) the IPv8 service object
+IMPORTS_V = ("From Coq Require Import ZArith List Bool.\n"
+             "From IPV8V Require Import lib.PyErr model.M11_service gen.G11_unload.\n"
+             "Import ListNotations.\nOpen Scope Z_scope.\n")
+
+
+def sop_coq(op):
+    k = op[0]
+    if k == "add":
+        return "SAdd %d %d" % (op[1], op[2])
+    if k == "unload":
+        return "SUnloadOverlay %d" % op[1]
+    if k == "tick":
+        return "STick %s" % zl(op[1])
+    return "SStop"
+
+
+def pl_coq(l):
+    return "[" + "; ".join("(%d, %d)" % (a, b) for a, b in l) + "]"
+
+
+def service_histories(ctx):
+    r = ctx.rng("service")
+    hist = []
+    depth = 4 if ctx.quick else 6
+    # exhaustive over: add a strategy to overlay 1 / 2, unload 1 / 2, tick (all due)
+    for d in range(1, depth + 1):
+        for seq in itertools.product(["a1", "a2", "u1", "u2", "t"], repeat=d):
+            if seq[-1] not in ("t", "u1", "u2") or "t" not in seq:
+                continue
+            ops, n = [], 0
+            for x in seq:
+                if x[0] == "a":
+                    n += 1
+                    ops.append(("add", int(x[1]), 10 * int(x[1]) + n))
+                elif x[0] == "u":
+                    ops.append(("unload", int(x[1])))
+                else:
+                    ops.append(("tick", [10 * o + i for o in (1, 2) for i in range(1, n + 1)]))
+            hist.append(ops)
+    for i in range(150 if ctx.quick else 1500):
+        ops, sids = [], []
+        for j in range(r.choice([5, 9, 14])):
+            k = r.choices(["add", "unload", "tick", "stop"], [5, 2, 3, 0.2])[0]
+            if k == "add":
+                o = r.randrange(1, 4)
+                sids.append(100 * o + len(sids))
+                ops.append(("add", o, sids[-1]))
+            elif k == "unload":
+                ops.append(("unload", r.randrange(1, 5)))
+            elif k == "tick":
+                ops.append(("tick", [s for s in sids if r.random() < 0.8]))
+            else:
+                ops.append(("stop",))
+        hist.append(ops)
+    return hist
+
+
+def stage_service_machine(ctx):
+    cases, meta = [], []
+    for ops in service_histories(ctx):
+        outs, obs, bad = mach.run_service_history(ops)
+        ctx.count(("V", tuple((o[0],) + tuple(tuple(x) if isinstance(x, list) else x for x in o[1:]) for o in ops)),
+                  nontrivial=any(outs))
+        for key, what in bad:
+            ctx.violation(key, what, {"kind": "service-machine", "ops": ops})
+        cases.append(("(service_unload_steps, [%s])" % "; ".join(sop_coq(o) for o in ops),
+                      "([%s], (%s, %s))" % ("; ".join(pl_coq(o) for o in outs), zl(obs[0]), pl_coq(obs[1]))))
+        meta.append(ops)
+    ctx.sample({"service_history": meta[-1]})
+    return cases, meta
+
+
+def eval_service(ctx, cases, meta):
+    mism, errs = coqrun.eval_mismatches(IMPORTS_V, "run_scase", "sobs_eqb", cases, os.path.join(ctx.scratch, "svc"),
+                                        ctype="(list sstep * list sop) * sobs", shard=600)
+    for e in errs:
+        ctx.broke("model evaluation failed (service)", e)
+    for i in mism[:10]:
+        ctx.broke("correspondence: IPv8 service history (add_strategy / unload_overlay / on_tick / stop) differs between model "
+                  "and implementation", json.dumps({"ops": meta[i], "impl": cases[i][1][:600]}))
+    ctx.coverage["traces_validated_against_impl"] += len(cases) - len(mism)
+
+
+def service_jobs(ctx):
+    r = ctx.rng("service-system")
+    jobs = []
+    classes = ["DiscoveryCommunity", "DHTDiscoveryCommunity", "HiddenTunnelCommunity"]
+    times = [2.0, 6.3, 11.7] if ctx.quick else [0.4, 2.0, 4.9, 6.3, 9.1, 11.7, 17.3, 31.0]
+    for seed in range(1, (1 if ctx.quick else 3) + 1):
+        for c in classes:
+            for t in times:
+                jobs.append({"service": True, "target": c, "unload_time": t, "seed": seed, "mode": "unload_overlay"})
+            for i in range(0 if ctx.quick else 6):
+                jobs.append({"service": True, "target": c, "unload_time": round(r.uniform(0.0, 40.0), 2), "seed": seed,
+                             "mode": "unload_overlay"})
+        jobs.append({"service": True, "target": None, "unload_time": 8.0, "seed": seed, "mode": "stop"})
+    return jobs
+
+
+def stage_service_system(ctx, pool):
+    from tools.vlib import c11_system as S
+    results = pool.map(S.run_service_job, service_jobs(ctx))
+    stats = {"runs": 0, "strategy_steps_before": 0, "sends_before": 0}
+    for res in results:
+        job = res["job"]
+        if "crash" in res:
+            ctx.broke("IPv8 service run crashed (%s)" % job, res["crash"])
+            continue
+        stats["runs"] += 1
+        stats["strategy_steps_before"] += res["steps_before"]
+        stats["sends_before"] += res["sends_before"]
+        ctx.count(("VS", job["target"], job["unload_time"], job["seed"], job["mode"]), nontrivial=res["steps_before"] > 0)
+        for key, what in res["bad"]:
+            ctx.violation(key, "%s [IPv8 service, %s at t=%ss, seed %d]" % (what, job["mode"], job["unload_time"], job["seed"]),
+                          {"kind": "service", "job": job})
+    ctx.extra["service_runs"] = stats
